@@ -207,6 +207,8 @@ def gen(rng, tier, i):
             variant = "5"  # no pipelining against sub-realistic socket buffers (see the early-data note)
         creds = ("alice", "s3cret") if lk == "socks5auth" else None
         host = ohost
+        if variant == "4" and ":" in ohost and ck not in ("direct", "socks5"):
+            variant = "5"     # (a SOCKS4a name that is an IPv6 literal cannot be carried as a name in a CONNECT authority: C03)
         if lk == "socks4" and by_name:
             host = oip
         hs, proto = sc.client_handshake(li, host, oport, early=hdr if early else b"", variant=variant, creds=creds)
